@@ -36,6 +36,67 @@ func init() {
 				emit(hx(txt) + "\tenginesrc")
 				emit(hx(txt) + "\twithpair")
 				emit(hx(txt) + "\tsrcpair")
+				// two exceptions matching the page, with different cosmetic modifiers and different numbers of other
+				// modifiers (restricted-only lists included): the option is the one of the rule the priority order selects
+				{
+					var sel2 []string
+					for _, m := range mods[:6] {
+						if g.Chance(1, 3) {
+							sel2 = append(sel2, m)
+						}
+					}
+					for _, x := range []string{"client=~Kids", "client=Mom", "ctag=~device_tv", "ctag=device_pc", "domain=~a.org", "domain=example.org", "dnstype=~A", "third-party", "match-case", "important"} {
+						if g.Chance(1, 6) {
+							sel2 = append(sel2, x)
+						}
+					}
+					Shuffle(g, sel2)
+					other := "@@||example.org^"
+					if len(sel2) > 0 {
+						other += "$" + strings.Join(sel2, ",")
+					}
+					first := txt
+					if g.Chance(1, 3) {
+						first += Pick(g, []string{",client=~Kids", ",ctag=~device_tv", ",domain=~a.org", ",client=Mom"})
+						first = strings.Replace(first, "^,", "^$", 1)
+					}
+					if g.Bool() {
+						first, other = other, first
+					}
+					emit(hx(first) + "\tpair\t" + hx(other))
+					// the same with modifier counts one apart or equal, one of the two carrying a list made of excluded values
+					// only ($client=~x, $ctag=~x, $domain=~x count as a modifier like any other list)
+					cos := []string{"elemhide", "generichide", "jsinject"}
+					pad := []string{"third-party", "match-case", "content", "extension"}
+					mk := func(n int, extra string) string {
+						var l []string
+						for _, c := range cos {
+							if g.Bool() {
+								l = append(l, c)
+							}
+						}
+						for _, p := range pad {
+							if len(l) < n {
+								l = append(l, p)
+							}
+						}
+						if extra != "" {
+							l = append(l, extra)
+						}
+						Shuffle(g, l)
+						if len(l) == 0 {
+							return "@@||example.org^"
+						}
+						return "@@||example.org^$" + strings.Join(l, ",")
+					}
+					n := 1 + g.Intn(3)
+					a := mk(n, Pick(g, []string{"client=~Kids", "client=~Kids", "ctag=~device_tv", "domain=~a.org", "client=~Mom|~Dad"}))
+					b := mk(n+g.Intn(3), "")
+					if g.Bool() {
+						a, b = b, a
+					}
+					emit(hx(a) + "\tpair\t" + hx(b))
+				}
 				// The same subset on a blocking rule (mostly rejected: the
 				// modifiers are exception-only) and with other general
 				// modifiers.
@@ -66,6 +127,15 @@ func init() {
 			if err != nil {
 				st.Inc("rejected")
 				return "E", line, false
+			}
+			if mode == "pair" {
+				second, err2 := rules.NewNetworkRule(unhx(f[2]), 1)
+				if err2 != nil {
+					st.Inc("rejected")
+					return "E", line, false
+				}
+				st.Inc("two_exceptions")
+				return fmt.Sprint(uint32(rules.NewMatchingResult([]*rules.NetworkRule{rule, second}, nil).GetCosmeticOption())), line, true
 			}
 			mi := line
 			var opt rules.CosmeticOption
